@@ -163,3 +163,15 @@ def cases(thorough):
         yield case(f"clo/loop/{k}", f"def case__S__():\n{body}", "case__S__()")
     for k, body in MISC.items():
         yield case(f"clo/misc/{k}", MISC_PRE + f"def case__S__():\n{body}", "case__S__()")
+
+
+STRIPES = 2
+
+
+def tasks(thorough, seed):
+    return [("clo", thorough, i) for i in range(STRIPES)]
+
+
+def expand(desc):
+    _, thorough, i = desc
+    return itertools.islice(cases(thorough), i, None, STRIPES)
